@@ -276,7 +276,11 @@ def run_interact(ch, cfg, pieces, merge, ending, logs=False):
             termios.tcsetattr(os_, termios.TCSANOW, mid)
             mode_before = termios.tcgetattr(os_)
             env.add('fn', (lambda: env.hbuf[os_].extend(b'b\r')))
-            env.add('w', b'wv', fd=sp.hs_slave)
+            # the child goes on where it stopped: what is left of its first output (so that a character cut by the
+            # end of the first session is completed, the stream stays valid text), then new output
+            chunk_list = ([b'x' * cfg['burst'], b'yz'] if cfg.get('burst') else CHILD_CHUNKS_X if cfg['filt'] == 'strip-out' else CHILD_CHUNKS)
+            second_out = b''.join(chunk_list[ci:]) + b'wv'
+            env.add('w', second_out, fd=sp.hs_slave)
             env.add('fn', (lambda: env.hbuf[os_].extend(escbyte)))
             sys.stdout = fake
             try:
@@ -289,7 +293,7 @@ def run_interact(ch, cfg, pieces, merge, ending, logs=False):
             sys.stdout = saved_stdout
             screen2 = bytes(env.sent.get(os_, b''))[n_screen:]
             child2 = bytes(env.sent.get(sp.hs_master, b''))[n_child:]
-            fired2 = b'wv' if not any(a.kind == 'w' for a in env.script) else b''
+            fired2 = second_out if not any(a.kind == 'w' for a in env.script) else b''
             avail2 = (b'x' * 0) + bytes(consumed_out[:0]) + fired2
             unread2 = len(env.hbuf.get(sp.hs_master, b''))
             want_screen2 = (bytes(left) + fired2)[:len(bytes(left) + fired2) - unread2]
